@@ -134,7 +134,7 @@ def check_c16(run):
             skipped += 1; continue
         if ev["ev"] == "Decoded" and rv is False:      # the reference validator rejects the instance TLC generated
             skipped += 1; continue
-        if ev["ev"] == "Encoded" and ev["which"] == "zero" and '":null' in ev.get("text", ""):
+        if ev["ev"] == "Encoded" and ev["which"] == "zero" and re.search(r'[:\[,]null', ev.get("text", "")):
             # one broad class: a nil pointer / slice / map is encoded as null
             sig = "a nil pointer, slice or map is encoded as null, which the scanned definition does not admit"
         elif "bytes" in describe(c) or "slice(uint8)" in describe(c):
@@ -251,6 +251,13 @@ type PetResponse struct {
 	// the rate
 	// in: header
 	XRate int32 `json:"X-Rate"`
+}
+
+// ValidationErrorModel is a model that has the name of a response.
+//
+// swagger:model validationError
+type ValidationErrorModel struct {
+	Code int32 `json:"code"`
 }
 
 // ValidationError is a 422.
